@@ -589,6 +589,9 @@ class Scheduler:
                 if child_items or item in sgraph_items:
                     if transformation.process_ignored_items or not item.is_ignored:
                         items += (item,) + child_items
+                    else:
+                        # Definitions inside an ignored scope can be active items themselves
+                        items += child_items
             # An item can be the definition of several others (e.g., a module procedure
             # that is also listed in a generic interface) but must be processed only once
             return tuple(dict.fromkeys(items))
